@@ -44,6 +44,10 @@ def emit(name, **kw):
     _push({"ev": name, **kw})
 
 
+def rank_of(obj):
+    return int(getattr(obj, "_rank", 0))
+
+
 def cb(name, static=None, **arrays):
     """run-time event from inside (possibly jitted / scanned) code"""
     import jax
@@ -80,13 +84,13 @@ def trial_proxy(base):
         def calc_overlap(self, walkers, wave_data):
             out = super().calc_overlap(walkers, wave_data)
             if not _state["suppress"]:
-                cb("Ovlp", ov=out)
+                cb("Ovlp", static={"rank": rank_of(self)}, ov=out)
             return out
 
         def calc_energy(self, walkers, ham_data, wave_data):
             out = super().calc_energy(walkers, ham_data, wave_data)
             if not _state["suppress"]:
-                cb("Energy", e=out)
+                cb("Energy", static={"rank": rank_of(self)}, e=out)
             return out
 
         def calc_force_bias(self, walkers, ham_data, wave_data):
@@ -95,7 +99,7 @@ def trial_proxy(base):
         def optimize(self, ham_data, wave_data):
             out = super().optimize(ham_data, wave_data)
             if not _state["suppress"]:
-                cb("Opt")
+                cb("Opt", static={"rank": rank_of(self)})
             return out
 
         def __hash__(self):
@@ -142,11 +146,11 @@ def prop_proxy(base):
             with suppress():
                 ov = trial.calc_overlap(prop_data["walkers"], wave_data)
             coh = jnp.max(jnp.abs(prop_data["overlaps"] - ov) / jnp.abs(prop_data["overlaps"]))
-            cb("Prop", coh=coh, w=prop_data["weights"], shift=prop_data["pop_control_ene_shift"],
-               eest=prop_data["e_estimate"])
+            cb("Prop", static={"rank": rank_of(self)}, coh=coh, w=prop_data["weights"],
+               shift=prop_data["pop_control_ene_shift"], eest=prop_data["e_estimate"])
             with suppress():
                 out = super().propagate(trial, ham_data, prop_data, fields, wave_data)
-            cb("PropDone", w=out["weights"], shift=out["pop_control_ene_shift"])
+            cb("PropDone", static={"rank": rank_of(self)}, w=out["weights"], shift=out["pop_control_ene_shift"])
             return out
 
         def orthonormalize_walkers(self, prop_data):
@@ -158,7 +162,7 @@ def prop_proxy(base):
                 ch = jnp.maximum(jnp.max(jnp.abs(w1[0] - w0[0])), jnp.max(jnp.abs(w1[1] - w0[1])))
             else:
                 ch = jnp.max(jnp.abs(w1 - w0))
-            cb("QR", change=ch)
+            cb("QR", static={"rank": rank_of(self)}, change=ch)
             return out
 
         def stochastic_reconfiguration_local(self, prop_data):
@@ -167,10 +171,10 @@ def prop_proxy(base):
             wk0 = [1 * wk0[0], 1 * wk0[1]] if isinstance(wk0, (list, tuple)) else 1 * wk0
             out = super().stochastic_reconfiguration_local(prop_data)
             if isinstance(wk0, (list, tuple)):
-                cb("SRLocal", w0=w0, w1=out["weights"], a0=wk0[0], b0=wk0[1], a1=out["walkers"][0],
-                   b1=out["walkers"][1])
+                cb("SRLocal", static={"rank": rank_of(self)}, w0=w0, w1=out["weights"], a0=wk0[0], b0=wk0[1],
+                   a1=out["walkers"][0], b1=out["walkers"][1])
             else:
-                cb("SRLocal", w0=w0, w1=out["weights"], a0=wk0, a1=out["walkers"])
+                cb("SRLocal", static={"rank": rank_of(self)}, w0=w0, w1=out["weights"], a0=wk0, a1=out["walkers"])
             return out
 
         def stochastic_reconfiguration_global(self, prop_data, comm):
@@ -178,7 +182,7 @@ def prop_proxy(base):
             f0 = _flat(prop_data["walkers"])
             out = super().stochastic_reconfiguration_global(prop_data, comm)
             emit("SRGlobal", w0=w0, w1=np.asarray(out["weights"]).copy(), rank=comm.Get_rank(),
-                 sel=_match(_flat(out["walkers"]), f0))
+                 sel=_match(_flat(out["walkers"]), f0), f0=f0, f1=_flat(out["walkers"]))
             return out
 
         def __hash__(self):
@@ -209,7 +213,8 @@ def sampler_proxy():
 
         def method(self, *a, **k):
             import jax
-            emit("Enter", entry=ENTRY_OF[name], steps=self.n_prop_steps, ene=self.n_ene_blocks, sr=self.n_sr_blocks)
+            emit("Enter", rank=rank_of(self), entry=ENTRY_OF[name], steps=self.n_prop_steps, ene=self.n_ene_blocks,
+                 sr=self.n_sr_blocks)
             out = base(self, *a, **k)
             jax.effects_barrier()
             try:
@@ -217,7 +222,7 @@ def sampler_proxy():
                 nk = float(np.asarray(out[1]["n_killed_walkers"]))
             except Exception:  # tracers under jvp/vjp: values are not concrete here
                 e, nk = None, None
-            emit("Exit", entry=ENTRY_OF[name], energy=e, killed=nk)
+            emit("Exit", rank=rank_of(self), entry=ENTRY_OF[name], energy=e, killed=nk)
             return out
 
         method.__name__ = name
